@@ -403,15 +403,17 @@ where
 		let mut tx_f = File::open(tx_file)?;
 		let mut content = String::new();
 		tx_f.read_to_string(&mut content)?;
-		let tx_bin = util::from_hex(&content).unwrap();
-		Ok(Some(
-			ser::deserialize(
-				&mut &tx_bin[..],
-				ser::ProtocolVersion(1),
-				ser::DeserializationMode::default(),
-			)
-			.unwrap(),
-		))
+		// a partially written file must be reported, not crash the wallet
+		let tx_bin = util::from_hex(&content).map_err(|e| {
+			Error::StoredTx(format!("Stored transaction {} is corrupt: {}", uuid, e))
+		})?;
+		let tx = ser::deserialize(
+			&mut &tx_bin[..],
+			ser::ProtocolVersion(1),
+			ser::DeserializationMode::default(),
+		)
+		.map_err(|e| Error::StoredTx(format!("Stored transaction {} is corrupt: {}", uuid, e)))?;
+		Ok(Some(tx))
 	}
 
 	fn batch<'a>(
